@@ -587,6 +587,15 @@ var c15DeadlockCfg = c15Cfg{ntypes: 2,
 
 var c15DeadlockStims = []c15Stim{{0, 0, 0}, {0, 3, 0}, {0, 2, 0}, {0, 3, 1}, {0, 0, 1}, {0, 2, 1}, {2, 0, 0}, {2, 0, 0}}
 
+// known finding (crossing multi-type Subscribes): Emitter(T0); Emitter(T1); sub2 = Subscribe(T0, buf 0); Emit(T0);
+// sub0 = Subscribe([T0,T1], buf 0); Emit(T0); sub1 = Subscribe([T1,T0], buf 0); Emit(T1); two receives on sub2
+var c15Deadlock2Cfg = c15Cfg{ntypes: 2,
+	emitters: []c15Emitter{{0, false}, {1, false}},
+	subs:     []c15Sub{{false, 0, []int{0, 1}}, {false, 0, []int{1, 0}}, {false, 0, []int{0}}},
+	emits:    []c15Emit{{0, 100}, {0, 101}, {1, 102}}}
+
+var c15Deadlock2Stims = []c15Stim{{0, 0, 0}, {0, 0, 1}, {0, 3, 2}, {0, 2, 0}, {0, 3, 0}, {0, 2, 1}, {0, 3, 1}, {0, 2, 2}, {2, 2, 0}, {2, 2, 0}}
+
 func TestVerifNothing(t *testing.T) {}
 
 func TestVerifC15(t *testing.T) {
@@ -603,9 +612,9 @@ func TestVerifC15(t *testing.T) {
 	}
 	start := 0
 	fmt.Sscanf(os.Getenv("C15_START"), "%d", &start)
-	ncorpus := 30
+	ncorpus := 32
 	if thorough {
-		ncorpus = 100
+		ncorpus = 102
 	}
 	runs += ncorpus
 	maxInFlight := c15MaxInFlight
@@ -621,9 +630,14 @@ func TestVerifC15(t *testing.T) {
 			// it is attempted many times with real time passing and must complete
 			c15MaxInFlight, c15SpinBeforeStimulus = 1<<20, 60000
 			k := 0
-			line, _, _ := c15Execute(t, c15DeadlockCfg, func(r *c15Run) (c15Stim, bool) {
-				for k < len(c15DeadlockStims) {
-					s := c15DeadlockStims[k]
+			ccfg, cstims := c15DeadlockCfg, c15DeadlockStims
+			if i >= ncorpus-2 {
+				// the last two attempts: the crossing-Subscribe deadlock (known finding)
+				ccfg, cstims = c15Deadlock2Cfg, c15Deadlock2Stims
+			}
+			line, _, _ := c15Execute(t, ccfg, func(r *c15Run) (c15Stim, bool) {
+				for k < len(cstims) {
+					s := cstims[k]
 					k++
 					for _, e := range r.enabled() {
 						if e == s {
